@@ -6,6 +6,7 @@ import (
 	"fmt"
 	"io"
 	"net"
+	"strings"
 	"testing"
 	"time"
 
@@ -105,6 +106,11 @@ func TestVerif_C23(t *testing.T) {
 			}
 			vfC23Run(rec, ts, how)
 		}
+		// the size changes at runtime while the client's connection is already open: what FSINFO
+		// says on that connection afterwards must be accepted on that connection
+		if evid.Tier() != "quick" || i%2 == 0 {
+			vfC23Run(rec, ts, []string{"live:UpdateTuningOptions", "live:UpdateExportOptions"}[i%2])
+		}
 	}
 }
 
@@ -127,6 +133,7 @@ func vfC23Run(rec *evid.Rec, ts int, how string) {
 	if ts == 0 {
 		eff = 65536
 	}
+	applyLive := func() bool { return true }
 	switch how {
 	case "UpdateTuningOptions":
 		srv.nfs.UpdateTuningOptions(func(t *TuningOptions) { t.TransferSize = eff })
@@ -136,6 +143,22 @@ func vfC23Run(rec *evid.Rec, ts int, how string) {
 		if err := srv.nfs.UpdateExportOptions(eo); err != nil {
 			rec.Infra(err.Error())
 			return
+		}
+	case "live:UpdateTuningOptions", "live:UpdateExportOptions":
+		// start from a different size (small if the target is large and the other way round)
+		start := 4096
+		if eff <= 8192 {
+			start = 262144
+		}
+		srv.nfs.UpdateTuningOptions(func(t *TuningOptions) { t.TransferSize = start })
+		applyLive = func() bool {
+			if how == "live:UpdateTuningOptions" {
+				srv.nfs.UpdateTuningOptions(func(t *TuningOptions) { t.TransferSize = eff })
+				return true
+			}
+			eo := srv.nfs.GetExportOptions()
+			eo.TransferSize = eff
+			return srv.nfs.UpdateExportOptions(eo) == nil
 		}
 	}
 	if err := srv.srv.Listen(); err != nil {
@@ -172,6 +195,15 @@ func vfC23Run(rec *evid.Rec, ts int, how string) {
 		return vfFH(r.FH)
 	}
 	big, w := look("big"), look("w")
+	if strings.HasPrefix(how, "live:") {
+		// one request of each kind under the old size, then the change, on the open connection
+		conn.nfs(19, xdrw.ArgFH(root))
+		conn.nfs(7, xdrw.ArgWrite(w, 0, 16, 2, make([]byte, 16)))
+		if !applyLive() {
+			rec.Infra("live update refused")
+			return
+		}
+	}
 	fi, _, err := conn.nfs(19, xdrw.ArgFH(root))
 	if err != nil || fi == nil || fi.Status != 0 {
 		rec.Infra(fmt.Sprintf("FSINFO: %v", err))
